@@ -60,6 +60,14 @@ pub struct StateWrapper<Msg, State> {
 }
 
 /// Wrapper for timers.
+#[cfg(getong_stateright_verif)]
+impl<Msg, State> StateWrapper<Msg, State> {
+    /// Verification hook: read-only access to the wrapped actor's state.
+    pub fn verif_wrapped_state(&self) -> &State {
+        &self.wrapped_state
+    }
+}
+
 #[derive(Clone, Debug, Eq, Hash, PartialEq, Serialize)]
 pub enum TimerWrapper<Timer> {
     Network,
